@@ -307,14 +307,17 @@ pub fn run_case(c: &Case) -> Vec<(String, String)> {
     let dir = "/verif/target/tmp";
     let _ = std::fs::create_dir_all(dir);
     for k in 0..c.fds {
-        let kind = ["devnull", "pipe", "socket", "file", "dir", "unlinked"][k % 6];
+        let kind = ["devnull", "pipe", "socket", "file", "dir", "unlinked", "eventfd", "epoll", "high", "creat", "creat2"][k % 11];
         let path: String = match kind {
+            // a path close to PATH_MAX components' limit, with spaces and non-ASCII characters
+            "creat" => format!("{dir}/{}_{}", "long name \u{e9}\u{1f980} ".repeat(9).trim_end(), p.pid),
+            "creat2" => format!("{dir}/new\nline_{}", p.pid),
             "file" => "/verif/target/fixtures/plain.bin".into(),
             "dir" => "/verif/target/fixtures".into(),
             "unlinked" => format!("{dir}/unlinked_{}_{k}", p.pid),
             _ => String::new(),
         };
-        let _ = p.cmd(&format!("fd {kind} {}", mdv_core::hex(path.as_bytes())));
+        let _ = p.cmd(&format!("fd {} {}", if kind == "creat2" { "creat" } else { kind }, mdv_core::hex(path.as_bytes())));
     }
     p.quiesce();
     let (phdr, phnum, gate, entry) = p.auxv();
@@ -469,6 +472,8 @@ pub fn run_case(c: &Case) -> Vec<(String, String)> {
     }
     for k in 0..c.fds {
         let _ = std::fs::remove_file(format!("{dir}/unlinked_{}_{k}", p.pid));
+        let _ = std::fs::remove_file(format!("{dir}/{}_{}", "long name \u{e9}\u{1f980} ".repeat(9).trim_end(), p.pid));
+        let _ = std::fs::remove_file(format!("{dir}/new\nline_{}", p.pid));
     }
     fails
 }
@@ -483,7 +488,7 @@ fn menu(thorough: bool) -> Vec<Case> {
     for e in 1..5 {
         v.push(Case { env: e, ..base.clone() });
     }
-    for f in [1usize, 5, 6, 12] {
+    for f in [1usize, 5, 6, 11, 12, 23] {
         v.push(Case { fds: f, ..base.clone() });
     }
     for c in 1..=cpu_fixtures().len() {
@@ -512,7 +517,7 @@ fn menu(thorough: bool) -> Vec<Case> {
 }
 
 pub fn run(ctx: &Ctx, rep: &mut Report) {
-    rep.rule = "menu: argv {none, [a], ['', 'x y'], non-UTF-8, 5000 bytes} / environment likewise / 0..12 descriptors of 6 kinds / 8 /proc/cpuinfo fixtures (1, 2, 3, 4, 255 processors; Intel / AMD / empty / over-long vendor; missing fields; leading blank lines) / 4 release-file combinations / uname failing / 6 linker-chain shapes reached through kernel auxv, caller-supplied values and a mix; each dimension alone against the default (thorough: argv x env x 3 linker shapes product). nontrivial = cases that deviate from the default target".into();
+    rep.rule = "menu: argv {none, [a], ['', 'x y'], non-UTF-8, 5000 bytes} / environment likewise / 0..23 descriptors of 11 kinds / 8 /proc/cpuinfo fixtures (1, 2, 3, 4, 255 processors; Intel / AMD / empty / over-long vendor; missing fields; leading blank lines) / 4 release-file combinations / uname failing / 6 linker-chain shapes reached through kernel auxv, caller-supplied values and a mix; each dimension alone against the default (thorough: argv x env x 3 linker shapes product). nontrivial = cases that deviate from the default target".into();
     rep.assume("the target is quiescent, so /proc/<pid>/* read after the dump equals what the writer saw");
     if let Some(case) = &ctx.replay {
         let Some(c) = Case::from_json(case) else {
